@@ -44,7 +44,7 @@ var (
 		{[]string{"a", "b", "c", "d"}, []string{"a", "b", "d"}}, {[]string{"read"}, []string{"READ"}}, {[]string{"read"}, []string{"reader"}},
 	}
 	// expiration relative to now, in ns, given skew s: "zero" or an offset
-	c14Exps = []string{"zero", "past-hour", "now-skew-1ns", "now-skew", "now-skew+1ns", "now-1ns", "now", "future"}
+	c14Exps = []string{"zero", "past-hour", "now-skew-1ns", "now-skew", "now-skew+1ns", "now-1ns", "now", "future", "far-future"}
 	c14Opts = []string{"nil", "empty", "url", "scopes", "url+scopes", "allow-missing", "skew", "skew+allow+url+scopes"}
 )
 
@@ -135,6 +135,8 @@ func cellC14(c *vh.Case, header, class, outcome string, required, granted []stri
 		expiration = now.Add(-skew + 1)
 	case "now-1ns":
 		expiration = now.Add(-1)
+	case "far-future":
+		expiration = time.Date(9999, 12, 31, 23, 59, 59, 0, time.UTC) // a "never expires" sentinel, beyond the range of a Duration
 	case "now":
 		expiration = now
 	default:
